@@ -34,8 +34,12 @@
 (* Function and the generic branch (diag, last_dim_is_batch, x2 = None /   *)
 (* equal / different, requires_grad of either input, trace_mode, ARD vs    *)
 (* shared vs batched lengthscale) x sizes incl. the coincidences kernel    *)
-(* batch = d = n.  TLC checks that the dispatch hands the Function only    *)
-(* configurations its saved derivative is right for (KCCallOK); the replay *)
+(* batch = d = n x the GEOMETRY of the points (unit | rows shared between  *)
+(* two different tensors: r = 0 exactly | far offset with more rows than   *)
+(* the threshold of the quadratic expansion of torch.cdist).  TLC checks   *)
+(* that the dispatch hands the Function only configurations its saved      *)
+(* derivative is right for and that every quadratic expansion is handed    *)
+(* centred points (KCCallOK); the replay                                   *)
 (* compares values and the gradient of EVERY parameter with autograd of    *)
 (* the documented formula, under every forcing of every cell.              *)
 (*                                                                         *)
